@@ -666,6 +666,15 @@ func (s *Store) Flush() error {
 	s.rateLk.Unlock()
 
 	if !s.outstandingWork() {
+		// Nothing to flush, but a writer may have started waiting for a flush
+		// just after the flush that wrote its data completed. Release it,
+		// since no later flush will have work to do.
+		s.rateLk.Lock()
+		if s.flushNotice != nil {
+			close(s.flushNotice)
+			s.flushNotice = nil
+		}
+		s.rateLk.Unlock()
 		return nil
 	}
 
